@@ -176,6 +176,7 @@ func main() {
 			lo, hi = 1, 0 // empty interval: every side condition about it fails loudly
 		}
 		f.Def(name, "Int × Int", vlib.LeanTuple(vlib.LeanInt(lo), vlib.LeanInt(hi)), what)
+		f.Def(name+"ScanMin", "Int", vlib.LeanInt(from), "lower end of the scanned range for "+name+" (a `lo` equal to it means: no lower limit inside the scan)")
 		f.Def(name+"ScanMax", "Int", vlib.LeanInt(to), "upper end of the scanned range for "+name+" (a `hi` equal to it means: no upper limit inside the scan)")
 	}
 	emitIv("temperatureMicros", "accepted temperature values in millionths, scanned over -1.000000..3.000000 through AnthropicRequest.Validate", -1000000, 3000000, func(k int64) bool {
